@@ -410,6 +410,147 @@ def always_leaves(e, targets):
 # facts
 
 
+def inl_params(body):
+    """{lid of an inlined helper's parameter: the argument expression it is bound to} (see Facts._inline_new_helpers)"""
+    out = {}
+    for n in walk(body):
+        if n.get("k") == "Let" and n.get("inl_param") and n["pat"].get("k") == "Binding":
+            out[n["pat"]["lid"]] = n["init"]
+    return out
+
+
+def used_lids(e, imap=None, depth=0):
+    """lids of the locals an expression reads, looking through parameters of inlined helpers"""
+    out = set()
+    for x in walk_k(e, "Path"):
+        r = x.get("res", {})
+        if "local" in r:
+            out.add(r["lid"])
+            if imap and r["lid"] in imap and depth < 4:
+                out |= used_lids(imap[r["lid"]], imap, depth + 1)
+    return out
+
+
+def cond_exprs(body, cond, depth=0):
+    """the condition itself plus the initialisers of boolean locals it mentions (`let off = first.pos.0 != n; if off {`)"""
+    out = [cond]
+    if depth >= 2:
+        return out
+    for p in walk_k(cond, "Path"):
+        pl = path_local(p)
+        if not pl or (p.get("ty") or "") != "bool":
+            continue
+        for l in walk_k(body, "Let"):
+            if l.get("init") is not None and l["pat"].get("k") == "Binding" and l["pat"].get("lid") == pl[1]:
+                out += cond_exprs(body, l["init"], depth + 1)
+    return out
+
+
+def _ends_leaving(e):
+    """does the expression syntactically end with return / break / continue?"""
+    e = unwrap(e) if isinstance(e, dict) else e
+    if not isinstance(e, dict):
+        return False
+    k = e.get("k")
+    if k in ("Ret", "Break", "Continue"):
+        return True
+    if k == "BlockExpr":
+        b = e["block"]
+        if b.get("expr") is not None:
+            return _ends_leaving(b["expr"])
+        st = b.get("stmts") or []
+        if st and st[-1].get("k") in ("Semi", "Expr"):
+            return _ends_leaving(st[-1].get("e"))
+    return False
+
+
+def _nest_early_exits(block):
+    """`{ ..; if C { leave }  rest.. }`  ->  `{ ..; if C { leave } else { rest.. } }` and, for a negated test,
+    `{ ..; if !X { leave }  rest.. }`  ->  `{ ..; if X { rest.. } else { leave } }` -- the guarded-early-exit spelling and
+    the if/else spelling of the same control flow get one shape (the nested one)."""
+    stmts = block.get("stmts") or []
+    for i, st in enumerate(stmts):
+        if st.get("k") not in ("Semi", "Expr"):
+            continue
+        e = st.get("e")
+        eu = e
+        while isinstance(eu, dict) and eu.get("k") in ("DropTemps", "Use", "Type"):
+            eu = eu["e"]
+        if not isinstance(eu, dict) or eu.get("k") != "If" or eu.get("els") is not None or not _ends_leaving(eu["then"]):
+            continue
+        rest_stmts = stmts[i + 1:]
+        if not rest_stmts and block.get("expr") is None:
+            continue
+        rest = {"k": "BlockExpr", "span": (rest_stmts[0] if rest_stmts else block["expr"]).get("span", eu["span"]), "ty": block.get("ty"), "nested_rest": True,
+                "block": _nest_early_exits({"k": "Block", "span": eu["span"], "stmts": rest_stmts, "expr": block.get("expr")})}
+        c = eu["cond"]
+        cu = c
+        while isinstance(cu, dict) and cu.get("k") in ("DropTemps", "Use", "Type"):
+            cu = cu["e"]
+        if isinstance(cu, dict) and cu.get("k") == "Unary" and cu.get("op") == "!":
+            new_if = dict(eu, cond=cu["e"], then=rest, els=eu["then"], src="EarlyExitNeg")
+        else:
+            new_if = dict(eu, els=rest, src="EarlyExit")
+        return dict(block, stmts=stmts[:i], expr=new_if)
+    return block
+
+
+def flat_stmts(block):
+    """statements of a block in source order, looking through the nesting introduced by _nest_early_exits: the
+    guarded early exit is yielded as an `If` statement, followed by the statements of its continuation"""
+    out = []
+    for st in block.get("stmts") or []:
+        out.append(st)
+    e = block.get("expr")
+    if e is not None:
+        eu = unwrap(e)
+        if isinstance(eu, dict) and eu.get("k") == "If" and eu.get("src") in ("EarlyExit", "EarlyExitNeg"):
+            rest = eu["els"] if eu["src"] == "EarlyExit" else eu["then"]
+            out.append({"k": "Expr", "e": eu, "span": eu["span"]})
+            out += flat_stmts(rest["block"])
+        else:
+            out.append({"k": "Expr", "e": e, "span": e.get("span") if isinstance(e, dict) else None, "tail": True})
+    return out
+
+
+def body_stmts(e):
+    """flat_stmts of a function body / arm body given as an expression (a block or a single expression)"""
+    while isinstance(e, dict) and e.get("k") in ("DropTemps", "Use", "Type"):
+        e = e["e"]
+    if isinstance(e, dict) and e.get("k") == "BlockExpr":
+        return flat_stmts(e["block"])
+    return [{"k": "Expr", "e": e, "tail": True}] if e is not None else []
+
+
+def normalise(node):
+    """Canonical control-flow shapes, so that a rule sees the same tree whichever of the equivalent spellings the
+    source uses:
+      * `if let P = E { A } else { B }`            ->  Match(E) [P => A, _ => B]      (src = "IfLet")
+    Everything else is left as it is (rules that read a two-row table from a `match` on a bool also accept the
+    equivalent `if`, see r_tables._tab_generic)."""
+    if isinstance(node, list):
+        return [normalise(x) for x in node]
+    if not isinstance(node, dict):
+        return node
+    node = {k: (normalise(v) if isinstance(v, (dict, list)) and k not in ("span", "res", "callee") else v) for k, v in node.items()}
+    k = node.get("k")
+    if k == "Block" and not os.environ.get("CALAMIR_NO_EARLYEXIT"):
+        node = _nest_early_exits(node)
+    if k == "If":
+        c = node.get("cond")
+        cu = c
+        while isinstance(cu, dict) and cu.get("k") in ("DropTemps", "Use", "Type"):
+            cu = cu["e"]
+        if isinstance(cu, dict) and cu.get("k") == "LetExpr":
+            els = node.get("els")
+            if els is None:
+                els = {"k": "Tup", "span": node["span"], "ty": "()", "es": []}
+            return {"k": "Match", "span": node["span"], "ty": node.get("ty"), "id": node.get("id"), "src": "IfLet", "scrut": cu["init"],
+                    "arms": [{"span": cu["pat"].get("span", node["span"]), "pat": cu["pat"], "guard": None, "body": node["then"]},
+                             {"span": els.get("span", node["span"]), "pat": {"k": "Wild", "span": node["span"], "ty": cu["pat"].get("ty")}, "guard": None, "body": els}]}
+    return node
+
+
 class Fn:
     __slots__ = ("raw", "name", "file", "line", "impl_self", "impl_trait")
 
@@ -450,6 +591,68 @@ class Facts:
             self.mir.setdefault(norm(m["def"]), []).append(m)
         self.adts = {norm(a["def"]): a for a in d["adts"]}
         self.impls = d["impls"]
+        if not os.environ.get("CALAMIR_NO_NORMALISE"):
+            for f in self.fns:
+                f.raw["body"] = normalise(f.raw["body"])
+            self._inline_new_helpers()
+
+    # ------------------------------------------------------------------------------------------
+    def _inline_new_helpers(self):
+        """Calls of crate functions that did not exist when the rules were written (tables/known_fns.json) are
+        replaced by a block binding the parameters to the arguments followed by a copy of the helper's body, so that
+        extracting code into a private helper does not hide it from a rule anchored on the caller."""
+        try:
+            with open(os.path.join(os.path.dirname(os.path.dirname(os.path.abspath(__file__))), "tables", "known_fns.json")) as fh:
+                known = set(json.load(fh)["fns"])
+        except OSError:
+            return
+        new = {n: v[0] for n, v in self.by_name.items() if n not in known and len(v) == 1 and "{closure" not in n}
+        self.new_helpers = sorted(new)
+        if not new:
+            return
+        counter = [0]
+
+        def shift(node, off):
+            if isinstance(node, list):
+                return [shift(x, off) for x in node]
+            if not isinstance(node, dict):
+                return node
+            out = {}
+            for k, v in node.items():
+                if k == "lid" and isinstance(v, int):
+                    out[k] = v + off
+                elif isinstance(v, (dict, list)):
+                    out[k] = shift(v, off)
+                else:
+                    out[k] = v
+            return out
+
+        def inline(node, depth, stack):
+            if isinstance(node, list):
+                return [inline(x, depth, stack) for x in node]
+            if not isinstance(node, dict):
+                return node
+            node = {k: (inline(v, depth, stack) if isinstance(v, (dict, list)) and k not in ("span", "res", "callee") else v) for k, v in node.items()}
+            k = node.get("k")
+            if k in ("Call", "MethodCall") and depth < 3:
+                c = callee(node)
+                h = new.get(c) if c else None
+                if h is not None and c not in stack:
+                    counter[0] += 1
+                    off = 1000000 * counter[0]
+                    params = shift(h.raw.get("params", []), off)
+                    body = inline(shift(h.raw["body"], off), depth + 1, stack | {c})
+                    args = ([node["recv"]] if k == "MethodCall" else []) + list(node.get("args", []))
+                    stmts = []
+                    for p_, a_ in zip(params, args):
+                        stmts.append({"k": "Let", "span": node["span"], "pat": p_, "init": a_, "inl_param": True})
+                    return {"k": "BlockExpr", "span": node["span"], "ty": node.get("ty"), "inlined": c,
+                            "block": {"k": "Block", "span": node["span"], "stmts": stmts, "expr": body}}
+            return node
+        for f in self.fns:
+            if f.name in new:
+                continue
+            f.raw["body"] = inline(f.raw["body"], 0, frozenset([f.name]))
 
     @staticmethod
     def _is_test(h):
